@@ -39,6 +39,8 @@ def _agree(res, run, snap, gold, run_index, phase):
         return [{"target": "*", "what": "sync raised %s" % run["exception"], "facts": facts_of(scn, None, run_index), "kind": "raised",
                  "phase": phase}]
     for tk in scn["targets"]:
+        if scn["targets"][tk].get("alias_truth"):
+            continue     # this kind was pointed at the truth file itself: nothing to conform, it must only stay untouched (C10)
         k = L.kind_of(tk)
         fname = res["paths"][tk]
         name = scn["names"][k]
@@ -160,6 +162,47 @@ def _clean_docstrings(tree):
     return tree
 
 
+def binds(stmt, short):
+    """stmt is an assignment (not a definition) whose target is the plain name `short`"""
+    if isinstance(stmt, ast.Assign):
+        return any(isinstance(t, ast.Name) and t.id == short for t in stmt.targets)
+    if isinstance(stmt, ast.AnnAssign):
+        return isinstance(stmt.target, ast.Name) and stmt.target.id == short
+    return False
+
+
+def _strip_rebindings(tree, name):
+    """the tree without assignments to the target's own (short) name"""
+    import copy
+    short = name.split(".")[-1]
+    tree = copy.deepcopy(tree)
+    for n in ast.walk(tree):
+        if isinstance(n, (ast.Module, ast.ClassDef)):
+            n.body = [s for s in n.body if not binds(s, short)] or [ast.Pass()]
+    return tree
+
+
+def _others(tree, name):
+    return [x for x in _masked_dump(tree, name) if x != "<<NAMED DEFINITION>>"]
+
+
+def _explain(old, new, name):
+    """the ways in which the other statements differ, each a failure kind of its own: docstring indentation only
+    (of the module / of other definitions), assignments to the target's own name lost, or anything else"""
+    def doc_kind(o, n):
+        a, b = _others(o, name), _others(n, name)
+        only_module = (len(a) == len(b) and a[1:] == b[1:] and ast.get_docstring(o) is not None and ast.get_docstring(n) is not None)
+        return "module-docstring-only" if only_module else "docstrings-only"
+    if _others(_clean_docstrings(old), name) == _others(_clean_docstrings(new), name):
+        return [doc_kind(old, new)]
+    so, sn = _strip_rebindings(old, name), _strip_rebindings(new, name)
+    if _others(so, name) == _others(sn, name):
+        return ["rebinding-replaced"]
+    if _others(_clean_docstrings(so), name) == _others(_clean_docstrings(sn), name):
+        return [doc_kind(so, sn), "rebinding-replaced"]
+    return ["statements"]
+
+
 def judge_c11(res):
     """every run that changes a target file preserves all other statements/siblings in order, and the file parses"""
     scn, out = res["scn"], judge_bodies(res)
@@ -188,13 +231,10 @@ def judge_c11(res):
             if a != b:
                 # find the first difference
                 j = next((j for j, (x, y) in enumerate(zip(a, b)) if x != y), min(len(a), len(b)))
-                only_doc = (len(a) == len(b) and a[1:] == b[1:] and ast.get_docstring(old) is not None
-                            and ast.get_docstring(new) is not None)
-                a2 = [x for x in _masked_dump(_clean_docstrings(old), name) if x != "<<NAMED DEFINITION>>"]
-                b2 = [x for x in _masked_dump(_clean_docstrings(new), name) if x != "<<NAMED DEFINITION>>"]
-                out.append({"target": tk, "what": "other statements not preserved (run %d): %d vs %d items, first difference at %d: %s | %s" % (
-                    i, len(a), len(b), j, (a[j][:80] if j < len(a) else "-"), (b[j][:80] if j < len(b) else "-")), "facts": fx,
-                    "kind": "module-docstring-only" if only_doc else "docstrings-only" if a2 == b2 else "statements"})
+                what = "other statements not preserved (run %d): %d vs %d items, first difference at %d: %s | %s" % (
+                    i, len(a), len(b), j, (a[j][:80] if j < len(a) else "-"), (b[j][:80] if j < len(b) else "-"))
+                for kind in _explain(old, new, name):
+                    out.append({"target": tk, "what": what, "facts": fx, "kind": kind})
         for f in out[n0:]:
             f["phase"] = phase
     return out
